@@ -340,7 +340,28 @@ func ruleFieldIDsAlways(c *eng.Ctx) {
 	flow := eng.NewFlow(info, fi.Decl.Body)
 	isSet := func(nd ast.Node) bool {
 		return eng.FindCall(nd, false, func(cc *ast.CallExpr) bool {
-			return strings.HasSuffix(eng.CalleeName(info, cc), "id.SetShortFieldIDs")
+			if strings.HasSuffix(eng.CalleeName(info, cc), "id.SetShortFieldIDs") {
+				return true
+			}
+			// a helper of the same package that makes the call unconditionally at its top level
+			if h := c.P.FuncOfObj(eng.Callee(info, cc)); h != nil && h.Pkg == fi.Pkg && h.Decl.Body != nil {
+				for _, st := range h.Decl.Body.List {
+					if eng.FindCall(st, false, func(c2 *ast.CallExpr) bool {
+						return strings.HasSuffix(eng.CalleeName(h.Pkg.TypesInfo, c2), "id.SetShortFieldIDs")
+					}) != nil {
+						if _, isIf := st.(*ast.IfStmt); !isIf {
+							return true
+						}
+						// `if err := id.SetShortFieldIDs(…); err != nil {…}` is unconditional as well
+						if is := st.(*ast.IfStmt); is.Init != nil && eng.FindCall(is.Init, false, func(c3 *ast.CallExpr) bool {
+							return strings.HasSuffix(eng.CalleeName(h.Pkg.TypesInfo, c3), "id.SetShortFieldIDs")
+						}) != nil {
+							return true
+						}
+					}
+				}
+			}
+			return false
 		}) != nil
 	}
 	n := 0
